@@ -288,7 +288,9 @@ func (s *httpServer) doMPUB(w http.ResponseWriter, req *http.Request, ps httprou
 	}
 	if binaryMode {
 		tmp := make([]byte, 4)
-		msgs, err = readMPUB(req.Body, tmp, topic,
+		// a chunked request has no Content-Length to refuse above: stop reading
+		// at the limit, as the text mode below and MPUB over TCP do
+		msgs, err = readMPUB(io.LimitReader(req.Body, s.nsqd.getOpts().MaxBodySize), tmp, topic,
 			s.nsqd.getOpts().MaxMsgSize, s.nsqd.getOpts().MaxBodySize)
 		if err != nil {
 			return nil, http_api.Err{413, err.(*protocol.FatalClientErr).Code[2:]}
